@@ -59,6 +59,24 @@ coap_uri_info_t coap_uri_scheme[COAP_URI_SCHEME_LAST] = {
   { "coaps+ws",    443,               0, COAP_URI_SCHEME_COAPS_WS }
 };
 
+/*
+ * Returns 1 if every '%' in @p s starts a percent-encoding, i.e. is followed
+ * by two hexadecimal digits (RFC 3986 2.1), else 0.
+ */
+static int
+escapes_ok(const uint8_t *s, size_t len) {
+  size_t i;
+
+  for (i = 0; i < len; i++) {
+    if (s[i] == '%') {
+      if (len - i < 3 || !isxdigit(s[i+1]) || !isxdigit(s[i+2]))
+        return 0;
+      i += 2;
+    }
+  }
+  return 1;
+}
+
 static int
 coap_split_uri_sub(const uint8_t *str_var,
                    size_t len,
@@ -261,7 +279,12 @@ path:                 /* at this point, p must point to an absolute path */
   }
 
 end:
-  return len ? -1 : 0;
+  if (len)
+    return -1;
+  if (!escapes_ok(uri->path.s, uri->path.length) ||
+      !escapes_ok(uri->query.s, uri->query.length))
+    return -6;
+  return 0;
 
 error:
   return res;
